@@ -473,9 +473,10 @@ func TestC17ReadThrough(t *testing.T) {
 					t.Fatalf("%s: the upload changed the %s back end", what, names[1-uploadTo])
 				}
 				if err == nil {
-					if wrong {
-						t.Fatalf("%s: upload of mismatching content acknowledged", what)
-					}
+					// (an acknowledged upload of mismatching content is caught
+					// by checkContents if it was stored; if the target already
+					// held the object, skipping the upload is legitimate)
+					c.ClassIf(wrong, "put_wrong_content_acknowledged")
 					if !has(uploadTo, obj) {
 						t.Fatalf("%s: acknowledged, but %s does not hold the object", what, names[uploadTo])
 					}
